@@ -234,3 +234,85 @@ class RecordGenesWithinLocation:
             len(result) <= len(self._cds_features)
             and forall(range(0, len(result) - 1), lambda k: result[k].location.start <= result[k + 1].location.start),
     }
+
+
+# ---- the same lookup on a record that also holds genes over the origin -------------------------------------------
+from pyvc.dsl import Union  # noqa: E402
+from contracts.locations import share_bases  # noqa: E402
+
+CL2 = Rec("CompoundLocation", label="CL2", parts=ListOf(FL, 2, 2), operator=Const("join"))
+GENE_ANYWHERE = Rec("CDSFeature", label="GeneAnywhere", location=Union(FL, CL2))
+RECORD_WITH_ANY_GENES = Rec("Record", label="RecordWithAnyGenes", _cds_features=SeqOf(GENE_ANYWHERE))
+
+
+@spec
+def envelope_start(gene):
+    return min(p.start for p in gene.location.parts)
+
+
+@spec
+def envelope_end(gene):
+    return max(p.end for p in gene.location.parts)
+
+
+@spec
+def gene_pieces(gene):
+    parts = gene.location.parts
+    if len(parts) == 1:
+        return (parts[0].start, parts[0].end, parts[0].strand, -1, -1)
+    return (parts[0].start, parts[0].end, parts[0].strand, parts[1].start, parts[1].end)
+
+
+@spec
+def gene_qualifies_anywhere(gene, location, with_overlapping):
+    return contains_spec(location, gene.location) or (with_overlapping and share_bases(location, gene.location))
+
+
+@spec
+def any_genes_in_record_order(genes, location):
+    """genes of one part, or of two parts over the origin ([a, L) + [0, b) with b <= a, listed in either order); the
+    envelope starts do not decrease along the list (genes over the origin, whose envelope starts at 0, come first in
+    the order of Feature.__lt__) and the query lies inside the record (it ends no later than a gene over the origin does)"""
+    n = len(genes)
+    return (forall(range(0, n), lambda j: gene_ok(genes[j])
+                   and implies(len(genes[j].location.parts) == 2, location.end <= envelope_end(genes[j])))
+            and forall(range(0, n), lambda i: forall(range(0, n), lambda j: implies(
+                i <= j, envelope_start(genes[i]) <= envelope_start(genes[j])))))
+
+
+@contract(f"{RECORD_FILE}::Record.get_cds_features_within_location", props=["C08"])
+class RecordGenesWithinLocationOverOrigin:
+    """The same for a record whose genes may also span the origin (two parts): any number of genes, one-part query."""
+    variant = True
+    params = {"self": RECORD_WITH_ANY_GENES, "location": FL, "with_overlapping": Bool}
+    prove_timeout_s = 60
+    budget_s = 900
+
+    def requires(self, location):
+        return any_genes_in_record_order(self._cds_features, location) and part_ok(location)
+
+    loops = {1: Loop(
+        types={"results": SeqOf(GENE_ANYWHERE)},
+        invariant={
+            "kept-genes-are-qualifying-genes-seen-so-far": lambda self, results, location, with_overlapping, _i:
+                forall(range(0, len(results)), lambda k: exists(range(0, _i), lambda m:
+                       gene_pieces(results[k]) == gene_pieces(self._cds_features[m])
+                       and gene_qualifies_anywhere(self._cds_features[m], location, with_overlapping))),
+            "no-qualifying-gene-seen-so-far-is-missing": lambda self, results, location, with_overlapping, _i:
+                forall(range(0, _i), lambda m: implies(
+                    gene_qualifies_anywhere(self._cds_features[m], location, with_overlapping),
+                    exists(range(0, len(results)), lambda k: gene_pieces(results[k]) == gene_pieces(self._cds_features[m])))),
+            "nothing-kept-twice": lambda results, _i: len(results) <= _i,
+        })}
+
+    ensures = {
+        "only-genes-of-the-record-that-qualify": lambda self, location, with_overlapping, result:
+            forall(range(0, len(result)), lambda k: exists(range(0, len(self._cds_features)), lambda m:
+                   gene_pieces(result[k]) == gene_pieces(self._cds_features[m])
+                   and gene_qualifies_anywhere(self._cds_features[m], location, with_overlapping))),
+        "every-qualifying-gene-also-one-over-the-origin": lambda self, location, with_overlapping, result:
+            forall(range(0, len(self._cds_features)), lambda m: implies(
+                gene_qualifies_anywhere(self._cds_features[m], location, with_overlapping),
+                exists(range(0, len(result)), lambda k: gene_pieces(result[k]) == gene_pieces(self._cds_features[m])))),
+        "nothing-twice": lambda self, result: len(result) <= len(self._cds_features),
+    }
